@@ -210,6 +210,11 @@ func (x *Exec) call1(s *State, in ssa.Instruction, c *ssa.CallCommon, result ssa
 			key = fv.Fn.Name
 			args = append(args, fv.Fn.Bindings...)
 		} else {
+			// calling a nil function value panics
+			if fv.S != "" && kindOf(fv.T) != kIface {
+				o := x.ob("nil", site, "call of a nil function value: "+c.Value.Name(), in)
+				s.check(o, not(eq(fv.S, "0")))
+			}
 			key = "funcvalue:" + c.Value.Name()
 			// the function value a call returned: contract under <callee>#result
 			if cr, ok := c.Value.(*ssa.Call); ok {
